@@ -3,6 +3,7 @@ from .fam_valid import Valid
 from .fam_be import Be
 from .fam_seg import Seg
 from .fam_iovs import Iovs
+from .fam_fe import Fe
 
 PROPS = {}
 
@@ -27,6 +28,14 @@ reg(id="C20",
     ])
 
 
+FE_TB = ["hand model Model/Frontend.v of every frontend operation and of the receive paths (tied to the code by the correspondence family fe on every run)",
+         "Spec/FeSpec.v, Spec/WireConsts.v, Spec/Gates.v: my transcription of request codes, payload layouts, reply kinds and gates"]
+FE_RULE = ("family fe: sequences of real Frontend operations (all 32 public operations, lattice/random arguments, queue indexes around the "
+           "known maximum, config windows over the whole range, 0..33 regions, every descriptor kind) after a negotiation prefix, against a raw "
+           "socket peer whose reply is scripted: the conformant reply of an independent encoder, or a mutation of it (code, each flag bit, "
+           "version, size, body bytes, 0..3 descriptors, truncation, split, garbage, no answer); the interposed recvmsg ends the stream after "
+           "the script so that no call can block; observation = result and the exact bytes/descriptors written; judged per step by Spec/FeSpec.v "
+           "(C01 wire bytes, C02 silent local rejection, C03 result fidelity, C06 reply acceptance, C07 gating); non-trivial = something was written")
 BE_TB = ["hand model Model/BeServer.v + Model/Transport.v of handle_request and the receive paths (tied to the code by the correspondence family be on every run)",
          "Spec/BeSpec.v: my transcription of the request table (reply kinds, gates, validity of handler invocations)"]
 BE_ASSUME = ["Linux stream-socket/SCM_RIGHTS delivery as modelled in Model/Transport.v (a recvmsg never crosses a segment boundary; descriptors ride on the first byte of a segment)",
@@ -40,8 +49,8 @@ BE_RULE = ("family be: request histories fed to the real BackendReqHandler by a 
 
 reg(id="C04", props="Props/C04.v", proof_files=["Proofs/BeProofs.v", "Proofs/TableProofs.v"], families=[Be()],
     rule=BE_RULE, trusted_base=BE_TB, assumptions=BE_ASSUME)
-reg(id="C07", props="Props/C07.v", proof_files=["Proofs/BeProofs.v", "Proofs/TableProofs.v"], families=[Be()],
-    rule=BE_RULE, trusted_base=BE_TB + ["Spec/Gates.v: operation -> gating feature table"], assumptions=BE_ASSUME)
+reg(id="C07", props="Props/C07.v", proof_files=["Proofs/BeProofs.v", "Proofs/TableProofs.v", "Proofs/FeProofs.v"], families=[Be(), Fe()],
+    rule=BE_RULE + " || " + FE_RULE, trusted_base=BE_TB + ["Spec/Gates.v: operation -> gating feature table"], assumptions=BE_ASSUME)
 reg(id="C09", props="Props/C09.v", proof_files=["Proofs/BeProofs.v"], families=[Be()],
     rule=BE_RULE + "; descriptors are distinct memfds identified by inode; leak = known inodes still open after dropping server, handler state and peer, plus growth of /proc/self/fd",
     trusted_base=BE_TB, assumptions=BE_ASSUME + ["the kernel disposes of SCM_RIGHTS descriptors that were never received when the socket is closed"])
@@ -56,9 +65,21 @@ reg(id="C08", props="Props/C08.v", proof_files=["Proofs/TransportProofs.v", "Pro
          "non-trivial = the whole run invoked a handler",
     trusted_base=BE_TB, assumptions=BE_ASSUME + ["sender side: sendmsg accepts a prefix of the offered bytes or fails with an errno (oracle); "
                                                    "SCM_RIGHTS of a partially accepted sendmsg travel with its first byte"])
+reg(id="C01", props="Props/C01.v", proof_files=["Proofs/WireProofs.v"], families=[Fe(), Be()],
+    rule=FE_RULE + " || " + BE_RULE, trusted_base=FE_TB + BE_TB, assumptions=BE_ASSUME)
+reg(id="C02", props="Props/C02.v", proof_files=["Proofs/FeProofs.v", "Proofs/BeProofs.v", "Proofs/TableProofs.v"], families=[Fe(), Be()],
+    rule=FE_RULE + " || " + BE_RULE, trusted_base=FE_TB + BE_TB, assumptions=BE_ASSUME)
+reg(id="C03", props="Props/C03.v", proof_files=["Proofs/FeProofs.v", "Proofs/BeProofs.v"], families=[Fe(), Be()],
+    rule=FE_RULE + " || " + BE_RULE, trusted_base=FE_TB + BE_TB, assumptions=BE_ASSUME)
+reg(id="C06", props="Props/C06.v", proof_files=["Proofs/FeProofs.v"], families=[Fe()],
+    rule=FE_RULE, trusted_base=FE_TB, assumptions=BE_ASSUME)
 reg(id="BE-DEV",
     props="Props/C20.v",
     families=[Be()],
     rule="development entry for the be family")
 
 reg(id="SEG-DEV", props="Props/C20.v", families=[Seg()], rule="dev")
+
+class FeNoSpec(Fe):
+    spec = False
+reg(id="FE-DEV", props="Props/C20.v", families=[Fe()], rule="dev")
